@@ -4,6 +4,7 @@ package main
 
 import (
 	"fmt"
+	"os"
 	"sort"
 	"strings"
 	"time"
@@ -12,6 +13,7 @@ import (
 	"cosmossdk.io/math"
 	sdk "github.com/cosmos/cosmos-sdk/types"
 
+	"github.com/tendermint/fundraising/x/fundraising/keeper"
 	"github.com/tendermint/fundraising/x/fundraising/types"
 )
 
@@ -327,6 +329,37 @@ func (e *Env) Dump() []string {
 	if !e.appMode {
 		balances("pool", e.poolAddr, e.poolBase)
 	}
+	out = append(out, e.invLine())
 
 	return out
+}
+
+// invLine runs the module's OWN invariants (keeper/invariants.go, the functions registered with
+// the crisis module) on the current state and prints their `broken` flags:
+//
+//	I <selling 0|1> <paying 0|1> <vesting 0|1> <AllInvariants 0|1>
+//
+// (`x` for one that panics).  SellingPoolReserveAmountInvariant prints to os.Stdout with
+// fmt.Println; the harness writes its stream through the writer it was given at start, so
+// os.Stdout is pointed at the null device for the duration of the call.
+func (e *Env) invLine() string {
+	old := os.Stdout
+	if null, err := os.OpenFile(os.DevNull, os.O_WRONLY, 0); err == nil {
+		os.Stdout = null
+		defer func() { os.Stdout = old; null.Close() }()
+	}
+	run := func(inv sdk.Invariant) (s string) {
+		defer func() {
+			if r := recover(); r != nil {
+				s = "x"
+			}
+		}()
+		_, broken := inv(e.ctx)
+		return boolStr(broken)
+	}
+	return strings.Join([]string{"I",
+		run(keeper.SellingPoolReserveAmountInvariant(e.k)),
+		run(keeper.PayingPoolReserveAmountInvariant(e.k)),
+		run(keeper.VestingPoolReserveAmountInvariant(e.k)),
+		run(keeper.AllInvariants(e.k))}, " ")
 }
